@@ -304,6 +304,57 @@ func raceSignature(report string) (sig string, sdkBoth bool) {
 	return strings.Join(tops, " <-> "), sdkBoth
 }
 
+// watchRaces runs one simulation of another property's engine in a -race build. A data race whose two accesses
+// are owned by SDK functions and at least one of which is a map operation is reported as a violation of that
+// property: the Go runtime aborts the whole process when it notices unsynchronised map access ("fatal error:
+// concurrent map read and map write"), which no recover can stop - the plugin dies or the engine-side caller
+// never returns. Other SDK races are counted (probe sdk_races_not_on_maps), not judged.
+func watchRaces(prop string, run func() RunRecord) RunRecord {
+	before := rt.RaceErrors()
+	_ = newRaceReports()
+	rec := run()
+	if rec.Probes == nil {
+		rec.Probes = map[string]int{}
+	}
+	if n := rt.RaceErrors() - before; n > 0 {
+		rep := newRaceReports()
+		sig, sdk := raceSignature(rep)
+		onMap := raceOnMap(rep)
+		switch {
+		case (sdk && onMap) || rep == "":
+			rec.Violations = append([]Violation{{prop, "race", "concurrent map access: " + sig, fmt.Sprintf("%d data race report(s) in this run; unsynchronised map access is fatal to the process (concurrent map read and map write); first report:\n%s", n, trunc(rep, 3000))}}, rec.Violations...)
+			rec.Outcome = "violation"
+		case sdk:
+			rec.Probes["sdk_races_not_on_maps"] += n
+		default:
+			rec.Probes["race_reports_outside_sdk"] += n
+		}
+	}
+	if !rt.RaceBuild {
+		rec.Probes["not_a_race_build"]++
+	}
+	return rec
+}
+
+// raceOnMap tells whether one of the two accesses of the first report is a runtime map operation.
+func raceOnMap(report string) bool {
+	lines := strings.Split(report, "\n")
+	seen := 0
+	for i, line := range lines {
+		t := strings.TrimSpace(line)
+		if strings.HasPrefix(t, "Write at") || strings.HasPrefix(t, "Read at") || strings.HasPrefix(t, "Previous write at") || strings.HasPrefix(t, "Previous read at") {
+			seen++
+			if i+1 < len(lines) && strings.HasPrefix(strings.TrimSpace(lines[i+1]), "runtime.map") {
+				return true
+			}
+			if seen >= 2 {
+				break
+			}
+		}
+	}
+	return false
+}
+
 func (raceEngine) Run(t *testing.T, batch string, tape *rt.Tape, runIdx uint64, extra json.RawMessage, trace func(string)) RunRecord {
 	before := rt.RaceErrors()
 	_ = newRaceReports()
